@@ -21,10 +21,12 @@ package main
 //   - no result of an infinite / ponder search before a stop (or ponderhit) was requested.
 
 import (
+	"bufio"
 	"bytes"
 	"encoding/json"
 	"flag"
 	"fmt"
+	"io"
 	"os"
 	"strings"
 	"sync"
@@ -36,6 +38,7 @@ import (
 	"github.com/frankkopp/FrankyGo/internal/position"
 	"github.com/frankkopp/FrankyGo/internal/search"
 	. "github.com/frankkopp/FrankyGo/internal/types"
+	"github.com/frankkopp/FrankyGo/internal/uci"
 )
 
 func init() { register("life-gate", lifeGate) }
@@ -213,6 +216,7 @@ func lifeGate(args []string) error {
 	_ = fs.Int64("seed", 1, "unused")
 	wd := fs.Int("watchdog", 8000, "watchdog per controller call in ms")
 	tick := fs.Int("tick", 50, "one model clock tick in ms (time limit = 2 ticks - 10 ms)")
+	front := fs.String("front", "api", "api: the controller calls the Search directly; uci: it writes command lines to a real UciHandler.Loop")
 	if err := fs.Parse(args); err != nil {
 		return err
 	}
@@ -231,7 +235,7 @@ func lifeGate(args []string) error {
 		if err := dec.Decode(&b); err != nil {
 			return err
 		}
-		res := runGateBehaviour(&b, time.Duration(*wd)*time.Millisecond, *tick)
+		res := runGateBehaviour(&b, time.Duration(*wd)*time.Millisecond, *tick, *front == "uci")
 		j, _ := json.Marshal(res)
 		of.Write(append(j, '\n'))
 		of.Sync()
@@ -245,7 +249,8 @@ func lifeGate(args []string) error {
 // replayer state for one behaviour
 type gateRun struct {
 	g        *gate
-	s        *search.Search
+	s        *search.Search // the search under test (api front), or a second one used only to ask the budget function (uci front)
+	uciW     io.Writer      // uci front: the handler's input
 	res      *GateResult
 	watchdog time.Duration
 	tick     time.Duration
@@ -369,6 +374,80 @@ func (r *gateRun) awaitReturn(name string) bool {
 	}
 }
 
+
+// ---- the controller's calls, through the API or as UCI command lines -----------------------------------------------------
+
+// uciSend writes command lines to the handler and then a line the handler does not know: a pipe write returns when the
+// reader has taken the bytes, and the handler reads its next line only when the previous command has returned - so the
+// function returns exactly when the command has been processed, as an API call does
+func (r *gateRun) uciSend(lines ...string) {
+	for _, l := range lines {
+		io.WriteString(r.uciW, l+"\n")
+	}
+	io.WriteString(r.uciW, "xyzzy\n")
+}
+
+func (r *gateRun) goLine(i int) string {
+	_, sl := r.limits(i)
+	d := ""
+	if r.selfend[i] {
+		d = " depth 1"
+	}
+	switch r.mode[i] {
+	case "depth":
+		return "go depth 1"
+	case "time":
+		return fmt.Sprintf("go movetime %d%s", sl.MoveTime.Milliseconds(), d)
+	case "inf":
+		return "go infinite" + d
+	default:
+		return fmt.Sprintf("go ponder wtime %d btime %d movestogo 1%s", sl.WhiteTime.Milliseconds(), sl.BlackTime.Milliseconds(), d)
+	}
+}
+
+func (r *gateRun) callStart(i int) func() {
+	if r.uciW != nil {
+		pos, goLine := "position fen "+gateFens[(i-1)%len(gateFens)], r.goLine(i)
+		return func() { r.uciSend(pos, goLine) }
+	}
+	p, sl := r.limits(i)
+	return func() { r.s.StartSearch(*p, *sl) }
+}
+
+func (r *gateRun) call(kind string, out *bool) func() {
+	if r.uciW != nil {
+		line := map[string]string{"stop": "stop", "newgame": "ucinewgame", "ponderhit": "ponderhit", "clearhash": "setoption name Clear Hash",
+			"resize": "setoption name Hash value 8", "isready": "isready"}[kind]
+		if line == "" { // issearching / wait have no command line
+			return func() {}
+		}
+		return func() { r.uciSend(line) }
+	}
+	switch kind {
+	case "stop":
+		return func() { r.s.StopSearch() }
+	case "newgame":
+		return func() { r.s.NewGame() }
+	case "wait":
+		return func() { r.s.WaitWhileSearching() }
+	case "ponderhit":
+		return func() { r.s.PonderHit() }
+	case "issearching":
+		return func() {
+			v := r.s.IsSearching()
+			if out != nil {
+				*out = v
+			}
+		}
+	case "clearhash":
+		return func() { r.s.ClearHash() }
+	case "resize":
+		return func() { r.s.ResizeCache() }
+	default:
+		return func() { r.s.IsReady() }
+	}
+}
+
 func (r *gateRun) limits(i int) (*position.Position, *search.Limits) {
 	p, _ := position.NewPositionFen(gateFens[(i-1)%len(gateFens)])
 	sl := search.NewSearchLimits()
@@ -450,10 +529,10 @@ func (r *gateRun) step(n int, st *GateStep) bool {
 			r.pending, r.pendI = "start", st.I
 			return true
 		case "c.start.acq1":
-			p, sl := r.limits(r.pendI)
+			f := r.callStart(r.pendI)
 			r.pending = ""
 			r.callModes, r.callAt = append(r.callModes, r.mode[r.pendI]), append(r.callAt, time.Since(g.t0))
-			r.launch("StartSearch", func() { r.s.StartSearch(*p, *sl) })
+			r.launch("StartSearch", f)
 			return want(0, "c.start.acq1", gateStepTimeout)
 		case "c.start.store", "c.start.acq2":
 			g.release(0)
@@ -482,9 +561,9 @@ func (r *gateRun) step(n int, st *GateStep) bool {
 			_ = json.Unmarshal(st.X, &x)
 			r.requestAt = append(r.requestAt, gateReq{time.Since(g.t0), "stop"})
 			if x == "newgame" {
-				r.launch("NewGame", func() { r.s.NewGame() })
+				r.launch("NewGame", r.call("newgame", nil))
 			} else {
-				r.launch("StopSearch", func() { r.s.StopSearch() })
+				r.launch("StopSearch", r.call("stop", nil))
 			}
 			return want(0, st.L, gateStepTimeout)
 		case "call.wait":
@@ -496,7 +575,7 @@ func (r *gateRun) step(n int, st *GateStep) bool {
 			if x != "granted" {
 				if r.pending == "wait" {
 					r.pending = ""
-					r.launch("WaitWhileSearching", func() { r.s.WaitWhileSearching() })
+					r.launch("WaitWhileSearching", r.call("wait", nil))
 				} else {
 					g.release(0)
 				}
@@ -518,7 +597,7 @@ func (r *gateRun) step(n int, st *GateStep) bool {
 			return r.awaitReturn("Stop/WaitWhileSearching")
 		case "call.ponderhit":
 			r.requestAt = append(r.requestAt, gateReq{time.Since(g.t0), "ponderhit"})
-			r.launch("PonderHit", func() { r.s.PonderHit() })
+			r.launch("PonderHit", r.call("ponderhit", nil))
 			if !r.awaitReturn("PonderHit") {
 				return false
 			}
@@ -538,18 +617,15 @@ func (r *gateRun) step(n int, st *GateStep) bool {
 			g.mu.Lock()
 			g.lastInfo, g.readyoks = "", 0
 			g.mu.Unlock()
-			switch x {
-			case "issearching":
-				r.launch("IsSearching", func() { v = r.s.IsSearching() })
-			case "clearhash":
-				r.launch("ClearHash", func() { r.s.ClearHash() })
-			case "resize":
-				r.launch("ResizeCache", func() { r.s.ResizeCache() })
-			case "isready":
-				r.launch("IsReady", func() { r.s.IsReady() })
+			if r.uciW != nil && x == "issearching" {
+				return true // no command line asks this
 			}
+			r.launch(x, r.call(x, &v))
 			if !r.awaitReturn(x) {
 				return false
+			}
+			if r.uciW != nil {
+				time.Sleep(2 * time.Millisecond) // the answer travels through the output pipe
 			}
 			g.mu.Lock()
 			info, oks := g.lastInfo, g.readyoks
@@ -637,7 +713,7 @@ func (r *gateRun) step(n int, st *GateStep) bool {
 	return false
 }
 
-func runGateBehaviour(b *GateBehaviour, watchdog time.Duration, tickMs int) *GateResult {
+func runGateBehaviour(b *GateBehaviour, watchdog time.Duration, tickMs int, uciFront bool) *GateResult {
 	t0 := time.Now()
 	g := &gate{parked: map[int]chan struct{}{}, arrive: make(chan gateArrival, 256), t0: t0,
 		tryOk: map[int]time.Duration{}, endSet: map[int]time.Duration{}}
@@ -651,6 +727,39 @@ func runGateBehaviour(b *GateBehaviour, watchdog time.Duration, tickMs int) *Gat
 	r := &gateRun{g: g, s: s, res: res, watchdog: watchdog, tick: time.Duration(tickMs) * time.Millisecond,
 		queue: map[int][]string{}, rid: map[int]int{}, tid: map[int]int{}, known: map[int]bool{0: true},
 		mode: map[int]string{}, selfend: map[int]bool{}}
+	var uciDone chan bool
+	if uciFront {
+		// the handler as main() builds it, talking to pipes; results, readyok and info strings are read off its output
+		inR, inW := io.Pipe()
+		outR, outW := io.Pipe()
+		u := uci.NewUciHandler()
+		u.InIo = bufio.NewScanner(inR)
+		u.InIo.Buffer(make([]byte, 1<<20), 1<<20)
+		u.OutIo = bufio.NewWriter(outW)
+		uciDone = make(chan bool, 1)
+		go func() { u.Loop(); uciDone <- true }()
+		go func() {
+			rd := bufio.NewScanner(outR)
+			rd.Buffer(make([]byte, 1<<20), 1<<20)
+			for rd.Scan() {
+				l := rd.Text()
+				switch {
+				case strings.HasPrefix(l, "bestmove"):
+					n := atomic.AddInt64(&g.results, 1)
+					g.note("RESULT #%d %s", n, l)
+				case strings.HasPrefix(l, "readyok"):
+					g.mu.Lock()
+					g.readyoks++
+					g.mu.Unlock()
+				case strings.HasPrefix(l, "info string"):
+					g.mu.Lock()
+					g.lastInfo = l
+					g.mu.Unlock()
+				}
+			}
+		}()
+		r.uciW = inW
+	}
 	next := 0
 	for next < len(b.Steps) {
 		st := &b.Steps[next]
@@ -663,6 +772,11 @@ func runGateBehaviour(b *GateBehaviour, watchdog time.Duration, tickMs int) *Gat
 		}
 		// nobody else may have moved, and the number of results is the model's
 		if st.K != "x" {
+			if uciFront && st.L == "r.sent" { // the line travels through the output pipe
+				for k := 0; k < 50 && int(atomic.LoadInt64(&g.results)) < st.Nres; k++ {
+					time.Sleep(time.Millisecond)
+				}
+			}
 			if n := int(atomic.LoadInt64(&g.results)); n != st.Nres {
 				r.diverge(next+1, st, fmt.Sprintf("%d results sent", st.Nres), fmt.Sprintf("%d", n))
 				break
@@ -730,10 +844,10 @@ func runGateBehaviour(b *GateBehaviour, watchdog time.Duration, tickMs int) *Gat
 	}
 	if res.Hang == "" && res.Panic == "" && r.pending == "start" && !r.inflight {
 		// a start request that the behaviour announced as its last step is issued now
-		p, sl := r.limits(r.pendI)
+		f := r.callStart(r.pendI)
 		r.pending = ""
 		r.callModes, r.callAt = append(r.callModes, r.mode[r.pendI]), append(r.callAt, time.Since(g.t0))
-		r.launch("StartSearch", func() { r.s.StartSearch(*p, *sl) })
+		r.launch("StartSearch", f)
 		r.awaitReturn("StartSearch")
 	}
 	if res.Hang == "" && res.Panic == "" {
@@ -749,7 +863,7 @@ func runGateBehaviour(b *GateBehaviour, watchdog time.Duration, tickMs int) *Gat
 				// controller thread cannot do any more: the replayer does it from the side
 				r.requestAt = append(r.requestAt, gateReq{time.Since(g.t0), "stop"})
 				side := make(chan string, 1)
-				go func() { side <- guard(func() { r.s.StopSearch() }) }()
+				go func() { side <- guard(r.call("stop", nil)) }()
 				defer func() {
 					select {
 					case <-side:
@@ -770,37 +884,28 @@ func runGateBehaviour(b *GateBehaviour, watchdog time.Duration, tickMs int) *Gat
 				_ = json.Unmarshal(st.X, &x)
 				r.mode[st.I] = x[0].(string)
 				r.selfend[st.I] = x[1].(bool)
-				p, sl := r.limits(st.I)
+				f := r.callStart(st.I)
 				r.callModes, r.callAt = append(r.callModes, r.mode[st.I]), append(r.callAt, time.Since(g.t0))
-				r.launch("StartSearch", func() { r.s.StartSearch(*p, *sl) })
+				r.launch("StartSearch", f)
 				r.awaitReturn("StartSearch")
 			case "c.stop.set":
 				var x string
 				_ = json.Unmarshal(st.X, &x)
 				r.requestAt = append(r.requestAt, gateReq{time.Since(g.t0), "stop"})
 				if x == "newgame" {
-					r.launch("NewGame", func() { r.s.NewGame() })
+					r.launch("NewGame", r.call("newgame", nil))
 				} else {
-					r.launch("StopSearch", func() { r.s.StopSearch() })
+					r.launch("StopSearch", r.call("stop", nil))
 				}
 				r.awaitReturn("StopSearch")
 			case "call.ponderhit":
 				r.requestAt = append(r.requestAt, gateReq{time.Since(g.t0), "ponderhit"})
-				r.launch("PonderHit", func() { r.s.PonderHit() })
+				r.launch("PonderHit", r.call("ponderhit", nil))
 				r.awaitReturn("PonderHit")
 			case "call.query":
 				var x string
 				_ = json.Unmarshal(st.X, &x)
-				switch x {
-				case "issearching":
-					r.launch("IsSearching", func() { r.s.IsSearching() })
-				case "clearhash":
-					r.launch("ClearHash", func() { r.s.ClearHash() })
-				case "resize":
-					r.launch("ResizeCache", func() { r.s.ResizeCache() })
-				case "isready":
-					r.launch("IsReady", func() { r.s.IsReady() })
-				}
+				r.launch(x, r.call(x, nil))
 				r.awaitReturn(x)
 			case "tick":
 				drain(time.Duration(tickMs) * time.Millisecond)
@@ -811,7 +916,7 @@ func runGateBehaviour(b *GateBehaviour, watchdog time.Duration, tickMs int) *Gat
 		waitSelfEnd()
 		// whatever is still running is stopped now - a request like any other
 		r.requestAt = append(r.requestAt, gateReq{time.Since(g.t0), "stop"})
-		r.launch("final StopSearch", func() { r.s.StopSearch() })
+		r.launch("final StopSearch", r.call("stop", nil))
 		r.awaitReturn("final StopSearch")
 		drain(15 * time.Millisecond)
 		// monitor: an infinite / ponder search decides to end only after a stop (or, pondering, a ponderhit) was
@@ -837,6 +942,15 @@ func runGateBehaviour(b *GateBehaviour, watchdog time.Duration, tickMs int) *Gat
 			}
 		}
 		g.mu.Unlock()
+	}
+	if uciFront && res.Hang == "" {
+		drain(10 * time.Millisecond)
+		go io.WriteString(r.uciW, "quit\n")
+		select {
+		case <-uciDone:
+		case <-time.After(3 * time.Second):
+			res.Hang = "the protocol loop did not end after quit"
+		}
 	}
 	res.Results = int(atomic.LoadInt64(&g.results))
 	g.mu.Lock()
